@@ -8,6 +8,7 @@ CONSTANTS
   MaxDup = 1
   MaxDrop = 0
   MaxClose = 0
+  Faults = {"DropQ", "DupQ", "ReplayQ", "DropR", "DupR"}
   StaleMode = "fail"
   KeyCheck = TRUE
   Timeout = FALSE
